@@ -69,6 +69,16 @@ def heightLine (H h c : String) : Option String := do
   if h = 0 ∨ c > Gen.RpcMaxCountSize then pure "err"
   else pure (showHeights (Rpc.byHeight H h c) ++ s!" count={H}")
 
+/-- a page of a paged getter over a collection of n elements: where it starts, how long it is, the total it reports
+    (`rpc-emb-wide`: the same for index/size pairs whose product passes 2^32) -/
+def embPage (i c n : String) : Option String := do
+  let i ← i.toNat?
+  let c ← c.toNat?
+  let n ← n.toNat?
+  let (s, e) := Rpc.getRange i c n
+  let first := if s < e then toString s else "-"
+  pure s!"first={first} len={e - s} count={n}"
+
 def pureRpc : List String → Option String
   | ["get-range", i, c, n] => do
       let i ← i.toNat?
@@ -76,6 +86,8 @@ def pureRpc : List String → Option String
       let n ← n.toNat?
       let (s, e) := Rpc.getRange i c n
       pure s!"{s} {e}"
+  | ["rpc-emb-page", _name, i, c, n] => embPage i c n
+  | ["rpc-emb-wide", _name, i, c, n] => embPage i c n
   | ["rpcserver-survived"] => some "ok"
   | ["rpc-mom-page", H, i, c] => pageLine H i c
   | ["rpc-acc-page", H, i, c] => pageLine H i c
